@@ -146,6 +146,15 @@ Theorem C12_operator_table :
 Proof. exact op_table_meaning. Qed.
 Print Assumptions C12_operator_table.
 
+Theorem C12_special_keys :
+  between_key = "between"%string
+  /\ (forall s, In s is_null_aliases -> s = "is_null"%string \/ s = "isnull"%string)
+  /\ (forall s, In s is_not_null_aliases -> s = "is_not_null"%string \/ s = "notnull"%string \/ s = "isnotnull"%string)
+  /\ In "is_null"%string is_null_aliases /\ In "is_not_null"%string is_not_null_aliases
+  /\ (forall s, In s (between_key :: is_null_aliases ++ is_not_null_aliases) -> assoc_str s op_table = None).
+Proof. exact special_keys_meaning. Qed.
+Print Assumptions C12_special_keys.
+
 (* Why _read_datafile_table / _iter_file_batches must filter BEFORE they project: projecting first
    makes pyarrow refuse every filter that reads a column outside the projection. *)
 Theorem C12_project_after :
